@@ -26,5 +26,4 @@ Definition decode_fast_with (m : PositiveMap.t entry) (input : N) : dres :=
 
 Definition LUT_index : PositiveMap.t entry := lut_index_of LUT.
 Definition decode_fast (input : N) : dres := decode_fast_with LUT_index input.
-Definition golay_decode_fast (input : N) : option N :=
-  match decode_fast input with DOk output => Some output | _ => None end.
+Definition golay_decode_fast (input : N) : option N := dres_output (decode_fast input).
